@@ -501,6 +501,64 @@ def size_task(task):
         s.cleanup()
 
 
+# ---- C19 / C07: pairs of consecutive `update -p` with different pending sets
+
+SWAP_PATHS = ["a/f.txt", "b/m.txt", "a/g.txt"]   # one tracked file, two untracked candidates
+
+
+def swap_configs():
+    import itertools
+    return list(itertools.product([None, "1", "2"], repeat=len(SWAP_PATHS)))
+
+
+def swap_task(task):
+    """Worktree set to S1, update (-p), worktree set to S2, second update: `checkpoint show` must equal
+    what the second update printed, and (for -p) analyze must report nothing."""
+    s1, s2, second, prop = task
+    s = sc.Scratch("swap")
+    try:
+        real = Real(s)
+        r = real.r
+        orig = open(r.path("a/f.txt")).read()
+
+        def set_wt(cfg):
+            for p, c in zip(SWAP_PATHS, cfg):
+                fp = r.path(p)
+                if c is None:
+                    if p == "a/f.txt":
+                        r.write(p, orig)
+                    elif os.path.isfile(fp):
+                        os.unlink(fp)
+                else:
+                    r.write(p, sc.content(c))
+        v = []
+        set_wt(s1)
+        real.apply(["CPUP"])
+        set_wt(s2)
+        real.apply(second)
+        v += real.update_defects
+        show = r.mr("checkpoint", "show")
+        got = (show.json() or {}).get("checkpoint")
+        if show.code != 0 or got != real.last_update:
+            v.append(("show-differs-from-last-update", "pending sets %s then %s (%s): show %s vs last update %s" % (s1, s2, second[0], got, real.last_update)))
+        evals = 1
+        if second[0] == "CPUP":
+            d = r.mr("analyze").json()
+            evals += 1
+            if d is None or d.get("targets") != []:
+                v.append(("targets-after-pending-update", "pending sets %s then %s: analyze after the second update -p reports %s" % (s1, s2, d and d.get("targets"))))
+        keep = ("show-differs-from-last-update", "update-recorded-wrong-id", "update-failed") if prop == "C19" else ("targets-after-pending-update",)
+        v = [x for x in v if x[0] in keep]
+        return {"violations": [{"sig": sig, "detail": d, "rank": 40, "case": {"swap_case": [list(s1), list(s2), second, prop]}} for sig, d in v],
+                "evals": evals, "obs": None, "nontrivial": 1 if s1 != s2 else 0}
+    except common.EngineError as e:
+        return {"engine_error": "%s (swap case %s)" % (e, task)}
+    except Exception:
+        return {"engine_error": "swap case %s: %s" % (task, traceback.format_exc()[-1200:])}
+    finally:
+        s.cleanup()
+
+
 def inv_c05(model, real, tier):
     v = []
     r = real.r
@@ -553,8 +611,8 @@ def state_task(task):
 
 RULES = {
     "C02": "plus the size family of C07 judged on the reported change list (a pending file edited beyond a buffer/read boundary must be listed, restored content must be filtered); explicit-state BFS over operation sequences {write(p,c), delete(p), mv, git mv, add -A, commit, checkpoint update [-p] [--id k], checkpoint delete, out delete --all} on paths {a/f.txt, 'b/n e-acute.txt', b/m.txt}; state = (commits, index, worktree, checkpoint) with commit ids canonicalised to indices; each new state is materialised in a real repository (real git, real monorail) and, when a checkpoint exists, `analyze --changes` for the default range and every ordered pair of commits must equal the statement's set (content differs from base, plus untracked, minus pending-checksum matches), verbatim and sorted",
-    "C07": "plus a size family: a pending file (untracked / modified / staged) of each size around the checksum buffer and read boundaries (65535..65537, 200000, 2 MiB+1; thorough more) must be clean after update -p and re-flagged by a one-byte edit at each boundary offset, an append and a truncation; same BFS; in every state reached by `checkpoint update -p`: analyze reports no targets and run starts nothing; then from that state every single later edit (fresh content for each path, new files, deletion of committed files; thorough: every pair) must re-flag exactly the targets of the edited paths, and a second update -p must clear them",
-    "C19": "same BFS; in every state `checkpoint show` must equal what the last successful update printed (or fail when deleted / never set); updates must record HEAD or the given --id; without a checkpoint analyze reports checkpointed=false with every target and run covers every target",
+    "C07": "plus the update-pair family of C19 judged on `analyze` after the second update -p; plus a size family: a pending file (untracked / modified / staged) of each size around the checksum buffer and read boundaries (65535..65537, 200000, 2 MiB+1; thorough more) must be clean after update -p and re-flagged by a one-byte edit at each boundary offset, an append and a truncation; same BFS; in every state reached by `checkpoint update -p`: analyze reports no targets and run starts nothing; then from that state every single later edit (fresh content for each path, new files, deletion of committed files; thorough: every pair) must re-flag exactly the targets of the edited paths, and a second update -p must clear them",
+    "C19": "plus an update-pair family: worktree set to pending configuration S1 (each of a/f.txt, b/m.txt, a/g.txt absent or with one of two contents), `update -p`, worktree set to S2, second update (-p or plain) for every pair (S1,S2) (quick: at most two pending paths each): show must equal what the second update printed; same BFS; in every state `checkpoint show` must equal what the last successful update printed (or fail when deleted / never set); updates must record HEAD or the given --id; without a checkpoint analyze reports checkpointed=false with every target and run covers every target",
     "C05": "same BFS (part B of C05): in every state `analyze --target-groups` then `run -c build` in trace mode must agree on groups and started targets",
 }
 
@@ -617,6 +675,19 @@ def bfs(prop, tier, depth, wall_cap=None):
             agg["distinct_nontrivial"] += r["nontrivial"]
             agg["violations"].extend(r["violations"])
         agg["size_cases"] = len(tasks)
+    if prop in ("C19", "C07"):
+        cfgs = swap_configs()
+        seconds = [["CPUP"]] if prop == "C07" else [["CPUP"], ["CPU"]]
+        tasks = [(a, b, sec, prop) for a in cfgs for b in cfgs for sec in seconds]
+        if tier == "quick":
+            tasks = [t for t in tasks if sum(x is not None for x in t[0]) <= 2 and sum(x is not None for x in t[1]) <= 2]
+        for r in common.pmap(swap_task, tasks, chunksize=4):
+            if "engine_error" in r:
+                raise common.EngineError(r["engine_error"])
+            agg["evaluations"] += r["evals"]
+            agg["distinct_nontrivial"] += r["nontrivial"]
+            agg["violations"].extend(r["violations"])
+        agg["update_pair_cases"] = len(tasks)
     agg["depth_completed"] = completed_depth
     agg["distinct_observations"] = len(observations)
     agg["alphabet"] = {k: v for k, v in alphabet.items()}
@@ -643,6 +714,19 @@ def run(prop, tier):
 
 def replay(prop, path):
     body = json.load(open(path))
+    if "swap_case" in body["case"]:
+        a, b, sec, pr = body["case"]["swap_case"]
+        r1 = swap_task((tuple(a), tuple(b), sec, pr))
+        if "engine_error" in r1:
+            print("ENGINE:", r1["engine_error"])
+            return 2
+        if r1["violations"]:
+            for v in r1["violations"]:
+                print("REPLAY property=%s still violates: [%s] %s" % (prop, v["sig"], v["detail"][:400]))
+            print("VIOLATION property=%s replay=%s" % (prop, path))
+            return 1
+        print("REPLAY property=%s: case passes on the current tree" % prop)
+        return 0
     if "size_case" in body["case"]:
         r1 = size_task(tuple(body["case"]["size_case"]))
         if "engine_error" in r1:
